@@ -43,6 +43,34 @@ def run_case(ctx, case):
 
 def _run_case(ctx, case, op):
     from curtsies.formatstring import FmtStr
+    if op == "iterate":
+        # a FmtStr is iterated through the sequence protocol (f[0], f[1], ... until IndexError):
+        # it must yield exactly its characters, like iterating its text
+        spec = case["spec"]
+        A = obs.spec_cells(spec)
+        f = obs.build(spec)
+        try:
+            items = []
+            for x in f:
+                items.append(x)
+                if len(items) > len(A) + 3:
+                    break
+            got = [obs.cells(x) for x in items]
+        except Exception as e:  # noqa
+            ctx.judge(False, case, mech="C06:iteration", expected=len(A), got=repr(e), nontrivial=bool(A))
+            return
+        ok = got == [[c] for c in A]
+        try:
+            f[len(A)]
+            past_end_raises = False
+        except IndexError:
+            past_end_raises = True
+        except Exception:  # noqa
+            past_end_raises = False
+        ctx.judge(ok and past_end_raises, case, mech="C06:iteration", expected=[obs.show([c]) for c in A],
+                  got=[obs.show(g) for g in got], detail={"f[len(f)] raises IndexError": past_end_raises},
+                  nontrivial=bool(A))
+        return
     if op == "sequence":
         # several slices / indexes of ONE object, one after the other
         spec = case["spec"]
@@ -212,6 +240,10 @@ def run(ctx):
             if ctx.mine(n):
                 run_case(ctx, {"op": "mul", "spec": spec, "n": k})
                 ctx.count("muls")
+        n += 1
+        if ctx.mine(n):
+            run_case(ctx, {"op": "iterate", "spec": spec})
+            ctx.count("iterations")
     small = list(obs.layouts(3, 2)) if not quick else list(obs.layouts(2, 2))
     strs = ["", "x", "xy"]
     for la in small:
